@@ -51,8 +51,13 @@ def scenario(kind, cls, *, seed, hexform, level, rng):
             s.settle()
             return {"events": s.trace, "steps": s.steps, "kind": kind, "cls": cls, "hex": hexform, "level": level}
         if kind == "genuine":
+            if seed % 2:
+                # the unit's random value shares its leading byte(s) with the key: the negotiated session key starts with zero byte(s)
+                nz = 1 + (seed // 2) % 3
+                s.dev.nonce_hook = lambda n, nz=nz, k=s.key_good: bytes(k[:nz]) + bytes(n[nz:])
             s.call_auth("good", hexform=hexform, level=level)
             s.settle()
+            s.dev.nonce_hook = None
         elif kind == "stored":
             s.call_auth("bad", hexform=hexform, level=level, reply=cls)       # credentials the device does not know: error packet or silence
             s.settle(hs=cls)
